@@ -26,6 +26,8 @@ type Atom struct {
 	Fact  *Fact
 	// Expanded: a boolean variable whose defining condition is also present (decomposed)
 	Expanded bool
+	// From: the helper call whose inlined body this atom comes from (outermost)
+	From ast.Expr
 }
 
 func fAnd(fs ...*Formula) *Formula { return &Formula{Op: 1, Sub: fs} }
@@ -212,29 +214,22 @@ func (fn *Func) expandHelperCalls(f *Formula, depth int) *Formula {
 	if !ok {
 		return f
 	}
-	info := fn.Info()
-	callee := calleeOf(info, call)
-	if callee == nil || callee.Pkg() == nil || callee.Pkg() != fn.Pkg.Types {
+	body := fn.inlinePredicateCall(call)
+	if body == nil {
 		return f
 	}
-	cf := fn.Prog.FuncOf[callee]
-	if cf == nil || cf.Body == nil || len(cf.Body.List) != 1 || cf.Decl == nil || cf.Decl.Recv != nil {
-		return f
+	mark := &Formula{Atom: &Atom{E: a.E, Pol: a.Pol, Fact: a.Fact, Expanded: true, From: a.From}}
+	exp := fn.expandHelperCalls(fn.expandBoolVars(decompose(body, a.Pol, a.Fact), 1), depth-1)
+	origin := a.From
+	if origin == nil {
+		origin = a.E
 	}
-	ret, ok := cf.Body.List[0].(*ast.ReturnStmt)
-	if !ok || len(ret.Results) != 1 {
-		return f
+	for _, x := range exp.AllAtoms() {
+		if x != nil {
+			x.From = origin
+		}
 	}
-	sig := callee.Type().(*types.Signature)
-	if sig.Variadic() || sig.Params().Len() != len(call.Args) {
-		return f
-	}
-	body := ret.Results[0]
-	for i := 0; i < sig.Params().Len(); i++ {
-		body = substExpr(body, sig.Params().At(i), call.Args[i], info)
-	}
-	mark := &Formula{Atom: &Atom{E: a.E, Pol: a.Pol, Fact: a.Fact, Expanded: true}}
-	return fAnd(mark, fn.expandHelperCalls(fn.expandBoolVars(decompose(body, a.Pol, a.Fact), 1), depth-1))
+	return fAnd(mark, exp)
 }
 
 // expandBoolVars: an atom that is a local boolean variable defined exactly once by a pure
@@ -767,4 +762,44 @@ func (fn *Func) edgeCondFormula(b *cfg.Block, k int) *Formula {
 		// tagless switch: the case expression is a boolean condition
 	}
 	return fn.expandHelperCalls(fn.expandBoolVars(decompose(cond, k == 0, nil), 2), 2)
+}
+
+// inlinePredicateCall: the body of a one-line predicate of the same package (a function or
+// a method: `return <expr>`), with parameters and receiver replaced by the call's arguments;
+// nil if the callee is not of that shape.
+func (fn *Func) inlinePredicateCall(call *ast.CallExpr) ast.Expr {
+	info := fn.Info()
+	callee := calleeOf(info, call)
+	if callee == nil || callee.Pkg() == nil || callee.Pkg() != fn.Pkg.Types {
+		return nil
+	}
+	cf := fn.Prog.FuncOf[callee]
+	if cf == nil || cf.Body == nil || len(cf.Body.List) != 1 || cf.Decl == nil {
+		return nil
+	}
+	ret, ok := cf.Body.List[0].(*ast.ReturnStmt)
+	if !ok || len(ret.Results) != 1 {
+		return nil
+	}
+	sig := callee.Type().(*types.Signature)
+	if sig.Variadic() || sig.Params().Len() != len(call.Args) {
+		return nil
+	}
+	body := ret.Results[0]
+	if cf.Decl.Recv != nil {
+		// a one-line predicate method: the receiver reads as the expression it is called on
+		sel, isSel := ast.Unparen(call.Fun).(*ast.SelectorExpr)
+		if !isSel || len(cf.Decl.Recv.List) != 1 || len(cf.Decl.Recv.List[0].Names) != 1 || pathOf(info, sel.X) == "" {
+			return nil
+		}
+		ro := info.ObjectOf(cf.Decl.Recv.List[0].Names[0])
+		if ro == nil {
+			return nil
+		}
+		body = substExpr(body, ro, sel.X, info)
+	}
+	for i := 0; i < sig.Params().Len(); i++ {
+		body = substExpr(body, sig.Params().At(i), call.Args[i], info)
+	}
+	return body
 }
